@@ -88,6 +88,10 @@ func scopeMonitor(ev []vhook.Event) (string, int, int) {
 }
 
 func c03Judge(c *Ctx, cs *Case) {
+	if cs.Gen == "repl-lines" {
+		c20Judge(c, cs)
+		return
+	}
 	c.Begin(cs)
 	if cs.Mode == "cli" {
 		m := RunModel(cs.Src, "", false, 0)
@@ -282,6 +286,15 @@ func c03Run(c *Ctx) {
 		}
 		if c.Mine() {
 			c03Judge(c, &Case{Gen: "handwritten-cli", Mode: "cli", Src: src})
+		}
+	}
+	// interactive mode: the same scoping rules hold for a line typed at the prompt
+	for _, line := range []string{
+		Var("x", "1") + " " + Print("x") + " " + Var("x", "2") + " " + Print("x"), "{ " + Var("y", "1") + " " + Var("y", "2") + " " + Print("y") + " }", For(Var("i", "0"), "i < 2", "i = i + 1", "{ "+Var("t", "i")+" "+Var("t", "9")+" "+Print("t")+" }") + " " + Print(`"done"`),
+		K["var"] + " a = 1, a = 2; " + Print("a"), Var("z", "1") + " { " + Var("z", "2") + " " + Print("z") + " } " + Print("z"), Print("nope_undefined"), "q_undefined = 1;", Fun("f", "", " "+Var("w", "1")+" "+Var("w", "2")+" ") + " f();",
+	} {
+		if c.Mine() {
+			c03Judge(c, &Case{Gen: "repl-lines", Src: strings.Join([]string{line, Print("1 + 1"), line}, "\n"), X: map[string]string{"final_newline": "1", "all_self": "1"}})
 		}
 	}
 	// random larger programs
